@@ -687,6 +687,11 @@ ERRS = (KeyError, IndexError, mrs.MRSError, dmrs.DMRSError, ValueError, Assertio
 
 # ------------------------------------------------------------------ the check
 
+INSPACE_HYPS = ("baseIdsNodup", "rolesOk", "ivSorts", "rstrLinked", "scopesHeld", "handleSorts", "topOk",
+                "qeqOnly", "argsLinked", "noCargRole", "oneConstraint", "noConstrainedLabel", "holesOnce",
+                "quantBody", "quantHead")
+
+
 class C04(Check):
     pid = "C04"
     props_modules = ["Verif.C04.Props", "Verif.C04.PropsRT", "Verif.C04.PropsIso"]
@@ -722,14 +727,22 @@ class C04(Check):
         "Python set iteration order (scope.conjoin inside DMRS.scopes) is not modelled: the model of from_dmrs receives "
         "the scope labels the implementation chose; theorems hold for every choice",
         "warnings are not observed; lnk is a character span or absent",
-        "the isomorphism clause is checked by mrs.is_isomorphic and by an independent backtracking search; proved only in "
-        "positional form (arguments, handle constraints, label sharing per position: PropsRT.lean §3)",
+        "the isomorphism clause is checked by mrs.is_isomorphic and by an independent backtracking search; proved in "
+        "positional form (PropsRT.lean §3) and as one variable map (PropsIso.lean: roundtrip_iso on InSpace, "
+        "roundtrip_iso_partial on the quantifier-free, hole-free fragment)",
         "second_conversion_stable is proved from hypotheses on m alone (BaseIdsDistinct, RolesOk, IVSorts, RstrLinked, "
         "ScopesHeld, NoDescArg); second_conversion_stable_partial replaces the last two by the decidable RepsAgree. The "
         "driver evaluates all of them on every case; the run fails if BaseIdsDistinct/RolesOk/IVSorts/RstrLinked/"
         "ScopesHeld/RepsAgree is false on a case of the space without a starved group; NoDescArg (no argument into a "
         "scopal descendant of a co-member) fails on about 1% of those cases, which are covered by the partial theorem "
         "only (extra_evidence: noDescArg)",
+        "roundtrip_iso (one variable map) is proved for the class InSpace = the fifteen named decidable hypotheses "
+        "BaseIdsDistinct, RolesOk, IVSorts, RstrLinked, ScopesHeld, HandleSorts, TopOk, QeqOnly, ArgsLinked, NoCargRole, "
+        "OneConstraint, NoConstrainedLabel, HolesOnce, QuantBody and O1 = QuantHead (each quantifier binds the first "
+        "representative of its restriction). The driver evaluates each on every case; the run fails if any is false on a "
+        "case of the property's space without a starved group; O1 is counted on all cases and on the space "
+        "(extra_evidence: O1_quantHead); roundtrip_iso_needs_O1 is the decide-checked case where only O1 fails and "
+        "no map exists",
         "DMRS identifies the variable a quantifier binds with the target of its RSTR link (first representative of the "
         "restriction): MRSs whose quantifier binds another member of the restriction are counted as outside the space "
         "(the round trip rebinds the quantifier); likewise intrinsic variables of sorts outside x/e/i/p/u "
@@ -927,6 +940,13 @@ class C04(Check):
         if not isinstance(answer, dict):
             return {"expected_from_impl": expected, "model": answer}
         hyp = answer.get("hyp") or {}
+        if "quantHead" in hyp:
+            # O1 (each quantifier binds the first representative of its restriction), the named
+            # hypothesis of roundtrip_iso: evaluated by the model on every case, counted
+            self._o1 = getattr(self, "_o1", {"all_cases": {"holds": 0, "fails": 0},
+                                             "space_without_starved_group": {"holds": 0, "fails": 0},
+                                             "inSpace_all_15_hold": 0})
+            self._o1["all_cases"]["holds" if hyp["quantHead"] else "fails"] += 1
         if "repsAgree" in hyp:
             # the hypotheses of second_conversion_stable_partial must hold on the property's space
             # (outside the input class of F08): evaluated by the model on every such case
@@ -940,6 +960,14 @@ class C04(Check):
                 self._nodesc["holds" if hyp.get("noDescArg", True) else "fails"] += 1
                 if bad:
                     return {"hypotheses_of_second_conversion_stable_fail": bad}
+                # InSpace (roundtrip_iso): the fifteen named hypotheses hold on the property's space
+                bad2 = [k for k in INSPACE_HYPS if not hyp.get(k, True)]
+                if "quantHead" in hyp:
+                    self._o1["space_without_starved_group"]["holds" if hyp["quantHead"] else "fails"] += 1
+                    if not bad2:
+                        self._o1["inSpace_all_15_hold"] += 1
+                if bad2:
+                    return {"hypotheses_of_roundtrip_iso_fail": bad2}
         a = {k: v for k, v in answer.items() if k != "hyp"}
         for side in (a,):
             if "ok" in side.get("m2", {}):
@@ -1193,7 +1221,8 @@ class C04(Check):
                 inc("inside:ids-not-in-position-order")
 
     def extra_evidence(self):
-        return {"noDescArg_on_space_without_starved_group": getattr(self, "_nodesc", None)}
+        return {"noDescArg_on_space_without_starved_group": getattr(self, "_nodesc", None),
+                "O1_quantHead": getattr(self, "_o1", None)}
 
     def shrink(self, case, still_fails):
         cur = case
